@@ -331,7 +331,8 @@ def mutate(rng, inp):
              "empty_vehicles", "empty_stops", "neg_duration", "neg_capacity", "bad_quantity_type", "group_unknown", "alt_unknown",
              "initial_unknown", "initial_twice", "dup_vehicle_id", "no_location", "string_speed", "zero_speed", "huge_numbers",
              "window_overlap", "start_level_gt_capacity", "mixing_bad", "dur_group_unknown", "matrix_frames_overlap", "max_stops_negative",
-             "matrix_vehicle_ghost", "matrix_vehicle_missing", "matrix_vehicle_twice"]
+             "matrix_vehicle_ghost", "matrix_vehicle_missing", "matrix_vehicle_twice", "null_in_resource_map", "empty_duration_groups",
+             "null_scalars"]
     k = rng.choice(kinds)
     st, ve = m["stops"], m["vehicles"]
     s0 = rng.choice(st) if st else None
@@ -396,6 +397,26 @@ def mutate(rng, inp):
         fr.append({"start_time": rfc(T0 + 2400), "end_time": rfc(T0 + 6000), "scaling_factor": 1.2})
     elif k == "max_stops_negative" and v0:
         v0["max_stops"] = -1
+    elif k == "null_in_resource_map" and s0 and v0:
+        # a JSON null where a number is expected inside a resource map
+        which = rng.choice(["quantity", "capacity", "start_level"])
+        if which == "quantity":
+            s0["quantity"] = {"a": None} if rng.random() < 0.5 else {"a": 1, "b": None}
+            v0.setdefault("capacity", {"a": 2, "b": 2})
+        else:
+            s0["quantity"] = {"a": -1}
+            v0["capacity"] = {"a": None} if which == "capacity" else {"a": 2}
+            if which == "start_level":
+                v0["start_level"] = {"a": None}
+    elif k == "empty_duration_groups":
+        # more duration groups than the expression has room for, all of them empty / one of them empty
+        m["duration_groups"] = [{"group": [], "duration": 5} for _ in range(rng.choice([1, 2, len(st) + 2 * len(ve) + 1, 40]))]
+    elif k == "null_scalars" and s0 and v0:
+        # nulls in places where the schema has pointers or plain values
+        tgt, key = rng.choice([(s0, "duration"), (s0, "unplanned_penalty"), (s0, "max_wait"), (s0, "start_time_window"), (s0, "precedes"),
+                               (s0, "compatibility_attributes"), (s0, "mixing_items"), (v0, "speed"), (v0, "capacity"), (v0, "max_stops"),
+                               (v0, "start_time"), (v0, "initial_stops"), (v0, "alternate_stops"), (s0, "quantity")])
+        tgt[key] = None
     elif k.startswith("matrix_vehicle_") and ve:
         # per-vehicle duration matrices whose vehicle ids do not cover the vehicles exactly
         dm = m.get("duration_matrix")
